@@ -25,56 +25,56 @@ Ltac copies_true :=
          end.
 
 (* ---------------------------------------------------------------- the export keeps everything but Kind / WKT name *)
-Fixpoint erase_kw (f : fschema) : fschema :=
+(* the plain embedding of the reader's objects into the source-API form: no table look-up *)
+Fixpoint form_of_field (f : fschema) : xfield :=
   match f with
-  | FScalar _ p => FScalar None p
-  | FMap it r e => FMap (erase_kw it) r e
-  | FArray it r e => FArray (erase_kw it) r e
-  | other => other
+  | FScalar _ p => XScalar p
+  | FAny od ts lr => XAny od ts lr
+  | FEnum r rules lr ext => XEnum (XRef r) rules lr ext
+  | FObject r fl rules ext => XObject (XRef r) fl rules ext
+  | FOneof r rules lr ext => XOneof (XRef r) rules lr ext
+  | FMap it r e => XMap (form_of_field it) r e
+  | FArray it r e => XArray (form_of_field it) r e
   end.
-Definition erase_prop (p : prop) : prop :=
-  match p with Prop_ j path rq eo d s => Prop_ j path rq eo d (erase_kw s) end.
-Definition erase_root (r : root) : root :=
+Definition form_of_prop (p : prop) : xprop :=
+  match p with Prop_ j path rq eo d s => XProp j path rq eo d (form_of_field s) end.
+Definition form_of_option (o : enumoption) : xoption :=
+  match o with EnumOption n num d info => XOption n num d info end.
+Definition form_of_root (r : root) : xroot :=
   match r with
-  | RObject n d e a ps => RObject n d e a (map erase_prop ps)
-  | ROneof n d ps => ROneof n d (map erase_prop ps)
-  | REnum n d p o i => REnum n d p o i
+  | RObject n d e a ps => XObjectR n d e a (map form_of_prop ps)
+  | ROneof n d ps => XOneofR n d (map form_of_prop ps)
+  | REnum n d p o i => XEnumR n d p (map form_of_option o) i
   end.
 
-Lemma export_field_erase f : export_field f = erase_kw f.
+Lemma export_field_form f : export_field f = form_of_field f.
 Proof.
   induction f as [kw p|od ts lr|r rules lr ext|r fl rules ext|r rules lr ext|it IH rules ext|it IH rules ext];
-    cbn [export_field erase_kw]; copies_true; cbn [keep keepl keepb]; try reflexivity;
+    cbn [export_field form_of_field]; copies_true; cbn [keep keepl keepb]; try reflexivity;
     try (destruct od; reflexivity); try (destruct fl; reflexivity); rewrite IH; reflexivity.
 Qed.
 
-Lemma export_prop_erase p : export_prop p = erase_prop p.
+Lemma export_prop_form p : export_prop p = form_of_prop p.
 Proof.
-  destruct p as [j path rq eo d s]. cbn [export_prop erase_prop]. copies_true.
-  cbn [keeps keepl keepb]. rewrite export_field_erase. destruct rq, eo; reflexivity.
+  destruct p as [j path rq eo d s]. cbn [export_prop form_of_prop]. copies_true.
+  cbn [keeps keepl keepb]. rewrite export_field_form. destruct rq, eo; reflexivity.
 Qed.
 
-Lemma export_option_id o : export_option o = o.
-Proof. destruct o as [name num d info]. cbn [export_option]. copies_true. reflexivity. Qed.
+Lemma export_option_form o : export_option o = form_of_option o.
+Proof. destruct o as [name num d info]. cbn [export_option form_of_option]. copies_true. reflexivity. Qed.
 
-Lemma map_ext_id {A} (f : A -> A) l : (forall x, f x = x) -> map f l = l.
-Proof. intros H. induction l as [|x r IH]; cbn [map]; [reflexivity|]. rewrite H, IH. reflexivity. Qed.
-
-Lemma export_root_erase r : export_root r = erase_root r.
+Lemma export_root_form r : export_root r = form_of_root r.
 Proof.
-  destruct r as [n d e a ps|n d ps|n d p o i]; cbn [export_root erase_root]; copies_true;
+  destruct r as [n d e a ps|n d ps|n d p o i]; cbn [export_root form_of_root]; copies_true;
     cbn [keeps keepl keep].
-  - f_equal. apply map_ext. apply export_prop_erase.
-  - f_equal. apply map_ext. apply export_prop_erase.
-  - rewrite (map_ext_id export_option o export_option_id). reflexivity.
+  - f_equal; try (apply map_ext; apply export_prop_form).
+  - f_equal; try (apply map_ext; apply export_prop_form).
+  - f_equal; try (apply map_ext; apply export_option_form).
 Qed.
 
 (* ---------------------------------------------------------------- import (export f) *)
-Lemma erase_kw_idem f : erase_kw (erase_kw f) = erase_kw f.
-Proof. induction f; cbn [erase_kw]; try reflexivity; rewrite IHf; reflexivity. Qed.
-
-Lemma field_importable_erase f : field_importable (erase_kw f) = field_importable f.
-Proof. induction f as [kw p| | | | |it IH r e|it IH r e]; cbn [erase_kw field_importable]; try reflexivity; exact IH. Qed.
+Lemma field_importable_form f : xfield_importable (form_of_field f) = field_importable f.
+Proof. induction f as [kw p| | | | |it IH r e|it IH r e]; cbn [form_of_field xfield_importable field_importable xschema_importable]; try reflexivity; exact IH. Qed.
 
 (* the inverse lemma for every field class: importing an exported field succeeds (for the formats
    the import knows) and yields a field that exports to the same form *)
@@ -82,29 +82,29 @@ Lemma import_export_field f :
   field_importable f = true ->
   exists f', import_field (export_field f) = ROk f' /\ export_field f' = export_field f.
 Proof.
-  rewrite export_field_erase.
+  rewrite export_field_form.
   induction f as [kw p|od ts lr|r rules lr ext|r fl rules ext|r rules lr ext|it IH rules ext|it IH rules ext];
-    intros Himp; cbn [erase_kw import_field].
+    intros Himp; cbn [form_of_field import_field import_schema].
   - (* scalars: the whole description is kept; Kind is recomputed from the type *)
     cbn [field_importable] in Himp. unfold import_scalar.
     destruct p as [rl lr|fmt rl lr|fmt rl lr|rl|fo rl lr|fo en lr|rl lr|rl lr|rl lr];
       cbn [scalar_site]; copies_true; cbn [rbind].
-    all: try (eexists; split; [reflexivity|rewrite export_field_erase; reflexivity]).
+    all: try (eexists; split; [reflexivity|rewrite export_field_form; reflexivity]).
     + destruct (int_kind fmt) as [k|]; [|discriminate]. cbn [rbind].
-      eexists; split; [reflexivity|rewrite export_field_erase; reflexivity].
+      eexists; split; [reflexivity|rewrite export_field_form; reflexivity].
     + destruct (float_kind fmt) as [k|]; [|discriminate]. cbn [rbind].
-      eexists; split; [reflexivity|rewrite export_field_erase; reflexivity].
+      eexists; split; [reflexivity|rewrite export_field_form; reflexivity].
   - copies_true. cbn [keep keepl keepb]. eexists; split; [reflexivity|].
-    rewrite export_field_erase. destruct od; reflexivity.
-  - copies_true. cbn [keep]. eexists; split; [reflexivity|]. rewrite export_field_erase. reflexivity.
-  - copies_true. cbn [keep keepb]. eexists; split; [reflexivity|]. rewrite export_field_erase. destruct fl; reflexivity.
-  - copies_true. cbn [keep]. eexists; split; [reflexivity|]. rewrite export_field_erase. reflexivity.
+    rewrite export_field_form. destruct od; reflexivity.
+  - copies_true. cbn [keep rbind]. eexists; split; [reflexivity|]. rewrite export_field_form. reflexivity.
+  - copies_true. cbn [keep keepb rbind]. eexists; split; [reflexivity|]. rewrite export_field_form. destruct fl; reflexivity.
+  - copies_true. cbn [keep rbind]. eexists; split; [reflexivity|]. rewrite export_field_form. reflexivity.
   - cbn [field_importable] in Himp. destruct (IH Himp) as (it' & Hi & He). rewrite Hi. cbn [rbind].
     copies_true. cbn [keep]. eexists; split; [reflexivity|].
-    rewrite export_field_erase in *. cbn [erase_kw]. rewrite He. reflexivity.
+    rewrite export_field_form in *. cbn [form_of_field]. rewrite He. reflexivity.
   - cbn [field_importable] in Himp. destruct (IH Himp) as (it' & Hi & He). rewrite Hi. cbn [rbind].
     copies_true. cbn [keep]. eexists; split; [reflexivity|].
-    rewrite export_field_erase in *. cbn [erase_kw]. rewrite He. reflexivity.
+    rewrite export_field_form in *. cbn [form_of_field]. rewrite He. reflexivity.
 Qed.
 
 Lemma import_export_prop p :
@@ -113,10 +113,10 @@ Lemma import_export_prop p :
 Proof.
   destruct p as [j path rq eo d s]. cbn [p_schema]. intros Himp.
   destruct (import_export_field s Himp) as (s' & Hi & He).
-  rewrite export_prop_erase. cbn [erase_prop import_prop].
-  rewrite export_field_erase in Hi. rewrite Hi. cbn [rbind]. copies_true. cbn [keeps keepl keepb].
-  eexists; split; [reflexivity|]. rewrite export_prop_erase. cbn [erase_prop].
-  rewrite !export_field_erase in He. rewrite He. destruct rq, eo; reflexivity.
+  rewrite export_prop_form. cbn [form_of_prop import_prop].
+  rewrite export_field_form in Hi. rewrite Hi. cbn [rbind]. copies_true. cbn [keeps keepl keepb].
+  eexists; split; [reflexivity|]. rewrite export_prop_form. cbn [form_of_prop].
+  rewrite !export_field_form in He. rewrite He. destruct rq, eo; reflexivity.
 Qed.
 
 Lemma import_export_props ps :
@@ -131,8 +131,12 @@ Proof.
     cbn [map]. rewrite He, Hre. reflexivity.
 Qed.
 
-Lemma import_option_id o : import_option o = o.
-Proof. destruct o as [name num d info]. cbn [import_option]. copies_true. reflexivity. Qed.
+(* an enum option survives export and import unchanged *)
+Lemma import_export_option o : import_option (export_option o) = o.
+Proof. destruct o as [name num d info]. cbn [export_option]. copies_true. cbn [import_option]. copies_true. reflexivity. Qed.
+
+Lemma map_ext_id {A} (f : A -> A) l : (forall x, f x = x) -> map f l = l.
+Proof. intros H. induction l as [|x r IH]; cbn [map]; [reflexivity|]. rewrite H, IH. reflexivity. Qed.
 
 (* roots: objects with entity marker and any-membership, oneofs, enums with prefix, option info and
    info field definitions *)
@@ -151,71 +155,87 @@ Proof.
     cbn [export_root]. copies_true. cbn [keeps keep keepl]. rewrite He. reflexivity.
   - cbn [export_root]. copies_true. cbn [keeps keep keepl import_root]. copies_true. cbn [keeps keep keepl].
     eexists; split; [reflexivity|]. cbn [export_root]. copies_true. cbn [keeps keep keepl].
-    rewrite (map_ext_id export_option o export_option_id).
-    rewrite (map_ext_id import_option o import_option_id).
-    rewrite (map_ext_id export_option o export_option_id). reflexivity.
+    assert (Hio : map import_option (map export_option o) = o)
+      by (rewrite map_map; apply map_ext_id; exact import_export_option).
+    rewrite Hio. reflexivity.
+Qed.
+
+(* an enum (no scalar Kind inside) comes back exactly *)
+Lemma import_export_enum n d p o i :
+  import_root (export_root (REnum n d p o i)) = ROk (REnum n d p o i).
+Proof.
+  cbn [export_root]. copies_true. cbn [keeps keep keepl import_root]. copies_true. cbn [keeps keep keepl].
+  assert (Hio : map import_option (map export_option o) = o)
+    by (rewrite map_map; apply map_ext_id; exact import_export_option).
+  rewrite Hio. reflexivity.
 Qed.
 
 (* the import does not touch references *)
-Lemma import_field_refs f f' : import_field f = ROk f' -> field_refs f' = field_refs f.
+Lemma import_field_refs f f' : import_field f = ROk f' -> field_refs f' = xfield_refs f.
 Proof.
-  revert f'. induction f as [kw p|od ts lr|r rules lr ext|r fl rules ext|r rules lr ext|it IH rules ext|it IH rules ext];
+  revert f'. induction f as [p|od ts lr|sch rules lr ext|sch fl rules ext|sch rules lr ext|it IH rules ext|it IH rules ext];
     intros f' H; cbn [import_field] in H.
   - unfold import_scalar in H. destruct p; cbn in H;
       repeat match type of H with context [match ?x with _ => _ end] => destruct x; cbn in H end;
       try discriminate; inversion H; reflexivity.
   - inversion H; reflexivity.
-  - revert H. copies_true. intros H. inversion H; reflexivity.
-  - revert H. copies_true. intros H. inversion H; reflexivity.
-  - revert H. copies_true. intros H. inversion H; reflexivity.
+  - destruct sch as [r| |]; cbn [import_schema rbind] in H; try discriminate. revert H. copies_true. intros H. inversion H; reflexivity.
+  - destruct sch as [r| |]; cbn [import_schema rbind] in H; try discriminate. revert H. copies_true. intros H. inversion H; reflexivity.
+  - destruct sch as [r| |]; cbn [import_schema rbind] in H; try discriminate. revert H. copies_true. intros H. inversion H; reflexivity.
   - destruct (import_field it) as [it'|c]; cbn [rbind] in H; [|discriminate].
-    destruct (assigns _ _ _); [|discriminate]. inversion H; subst. cbn [field_refs]. apply IH. reflexivity.
+    destruct (assigns _ _ _); [|discriminate]. inversion H; subst. cbn [field_refs xfield_refs]. apply IH. reflexivity.
   - destruct (import_field it) as [it'|c]; cbn [rbind] in H; [|discriminate].
-    destruct (assigns _ _ _); [|discriminate]. inversion H; subst. cbn [field_refs]. apply IH. reflexivity.
+    destruct (assigns _ _ _); [|discriminate]. inversion H; subst. cbn [field_refs xfield_refs]. apply IH. reflexivity.
 Qed.
+
+(* an inline or unset schema anywhere in a field is rejected *)
+Lemma import_inline_rejected rules lr ext :
+  (exists c, import_field (XEnum XInline rules lr ext) = RErr c) /\
+  (exists c, import_field (XEnum XUnset rules lr ext) = RErr c).
+Proof. split; eexists; reflexivity. Qed.
 
 (* ---------------------------------------------------------------- the import succeeds on every importable root *)
 Lemma import_field_total f :
-  field_importable f = true -> exists f', import_field f = ROk f' /\ field_refs f' = field_refs f.
+  xfield_importable f = true -> exists f', import_field f = ROk f' /\ field_refs f' = xfield_refs f.
 Proof.
-  induction f as [kw p|od ts lr|r rules lr ext|r fl rules ext|r rules lr ext|it IH rules ext|it IH rules ext];
+  induction f as [p|od ts lr|sch rules lr ext|sch fl rules ext|sch rules lr ext|it IH rules ext|it IH rules ext];
     intros Himp; cbn [import_field].
-  - cbn [field_importable] in Himp. unfold import_scalar.
+  - cbn [xfield_importable] in Himp. unfold import_scalar.
     destruct p as [rl lr|fmt rl lr|fmt rl lr|rl|fo rl lr|fo en lr|rl lr|rl lr|rl lr];
       cbn [scalar_site]; copies_true; cbn [rbind];
       try (eexists; split; reflexivity).
     + destruct (int_kind fmt); [|discriminate]. cbn [rbind]. eexists; split; reflexivity.
     + destruct (float_kind fmt); [|discriminate]. cbn [rbind]. eexists; split; reflexivity.
   - eexists; split; reflexivity.
-  - copies_true. eexists; split; reflexivity.
-  - copies_true. eexists; split; reflexivity.
-  - copies_true. eexists; split; reflexivity.
-  - cbn [field_importable] in Himp. destruct (IH Himp) as (it' & Hi & Hr). rewrite Hi. cbn [rbind]. copies_true.
+  - destruct sch as [r| |]; try discriminate. cbn [import_schema]. copies_true. cbn [rbind]. eexists; split; reflexivity.
+  - destruct sch as [r| |]; try discriminate. cbn [import_schema]. copies_true. cbn [rbind]. eexists; split; reflexivity.
+  - destruct sch as [r| |]; try discriminate. cbn [import_schema]. copies_true. cbn [rbind]. eexists; split; reflexivity.
+  - cbn [xfield_importable] in Himp. destruct (IH Himp) as (it' & Hi & Hr). rewrite Hi. cbn [rbind]. copies_true.
     eexists; split; [reflexivity|exact Hr].
-  - cbn [field_importable] in Himp. destruct (IH Himp) as (it' & Hi & Hr). rewrite Hi. cbn [rbind]. copies_true.
+  - cbn [xfield_importable] in Himp. destruct (IH Himp) as (it' & Hi & Hr). rewrite Hi. cbn [rbind]. copies_true.
     eexists; split; [reflexivity|exact Hr].
 Qed.
 
 Lemma import_props_total ps :
-  forallb (fun p => field_importable (p_schema p)) ps = true ->
+  forallb (fun p => xfield_importable (xp_schema p)) ps = true ->
   exists ps', import_props ps = ROk ps' /\
-              flat_map (fun p => field_refs (p_schema p)) ps' = flat_map (fun p => field_refs (p_schema p)) ps.
+              flat_map (fun p => field_refs (p_schema p)) ps' = flat_map (fun p => xfield_refs (xp_schema p)) ps.
 Proof.
   induction ps as [|p r IH]; intros H; cbn [import_props].
   - exists []. split; reflexivity.
-  - cbn [forallb] in H. apply andb_prop in H as [Hp Hr]. destruct p as [j path rq eo d s]. cbn [p_schema] in Hp.
+  - cbn [forallb] in H. apply andb_prop in H as [Hp Hr]. destruct p as [j path rq eo d s]. cbn [xp_schema] in Hp.
     destruct (import_field_total s Hp) as (s' & Hs & Hsr). destruct (IH Hr) as (r' & Hri & Hrr).
     cbn [import_prop]. rewrite Hs. cbn [rbind]. copies_true. rewrite Hri. cbn [rbind].
-    eexists; split; [reflexivity|]. cbn [flat_map p_schema]. rewrite Hsr, Hrr. reflexivity.
+    eexists; split; [reflexivity|]. cbn [flat_map p_schema xp_schema]. rewrite Hsr, Hrr. reflexivity.
 Qed.
 
 Lemma import_root_total r :
-  root_importable r = true -> exists r', import_root r = ROk r' /\ root_refs r' = root_refs r.
+  xroot_importable r = true -> exists r', import_root r = ROk r' /\ root_refs r' = xroot_refs r.
 Proof.
-  unfold root_importable, root_refs. destruct r as [n d e a ps|n d ps|n d p o i]; cbn [root_props import_root]; intros Himp.
-  - destruct (import_props_total ps Himp) as (ps' & Hi & Hr). rewrite Hi. cbn [rbind]. copies_true. cbn [keepl].
+  unfold xroot_importable, root_refs, xroot_refs. destruct r as [n d e a ps|n d ps|n d p o i]; cbn [xroot_props import_root]; intros Himp.
+  - destruct (import_props_total ps Himp) as (ps' & Hi & Hr). rewrite Hi. cbn [rbind]. copies_true. cbn [keepl root_props].
     eexists; split; [reflexivity|exact Hr].
-  - destruct (import_props_total ps Himp) as (ps' & Hi & Hr). rewrite Hi. cbn [rbind]. copies_true. cbn [keepl].
+  - destruct (import_props_total ps Himp) as (ps' & Hi & Hr). rewrite Hi. cbn [rbind]. copies_true. cbn [keepl root_props].
     eexists; split; [reflexivity|exact Hr].
   - eexists; split; reflexivity.
 Qed.
@@ -246,6 +266,7 @@ Proof.
 Qed.
 
 Definition entry_refs (entries : list (ref * root)) : list ref := flat_map (fun kr => root_refs (snd kr)) entries.
+Definition xentry_refs (entries : list (ref * xroot)) : list ref := flat_map (fun kr => xroot_refs (snd kr)) entries.
 
 Lemma memr_app a b k : memr (a ++ b) k = memr a k || memr b k.
 Proof. unfold memr. apply existsb_app. Qed.
@@ -254,14 +275,14 @@ Definition not_linked (st : sset) (k : ref) : Prop := forall r', lookup st k <> 
 
 Lemma build_schemas_spec : forall entries st,
   NoDup (map fst entries) ->
-  (forall k r, In (k, r) entries -> root_importable r = true) ->
+  (forall k r, In (k, r) entries -> xroot_importable r = true) ->
   (forall k, In k (map fst entries) -> not_linked st k) ->
   exists st', build_schemas st entries = ROk st' /\
     (forall k r, In (k, r) entries -> exists r', import_root r = ROk r' /\ lookup st' k = Some (Linked r')) /\
     (forall k, ~ In k (map fst entries) ->
        lookup st' k = match lookup st k with
                       | Some e => Some e
-                      | None => if memr (entry_refs entries) k then Some Placeholder else None
+                      | None => if memr (xentry_refs entries) k then Some Placeholder else None
                       end).
 Proof.
   induction entries as [|[k r] rest IH]; intros st Hnd Himp Hnl; cbn [build_schemas].
@@ -275,7 +296,7 @@ Proof.
       set (st3 := update (add_refs (fst (ref_to st k)) (root_refs r')) k (Linked r')).
       assert (Hl3 : forall k0, lookup st3 k0 =
                      if ref_eqb k k0 then Some (Linked r')
-                     else match lookup st k0 with Some e => Some e | None => if memr (root_refs r) k0 then Some Placeholder else None end).
+                     else match lookup st k0 with Some e => Some e | None => if memr (xroot_refs r) k0 then Some Placeholder else None end).
       { intros k0. unfold st3. rewrite lookup_update, lookup_add_refs, lookup_ref_to, ref_eqb_refl, Hrr.
         destruct (ref_eqb k k0) eqn:Ek.
         - destruct (lookup st k); reflexivity.
@@ -285,7 +306,7 @@ Proof.
       * intros k2 H2 r2. rewrite Hl3. destruct (ref_eqb k k2) eqn:Ek.
         -- apply ref_eqb_eq in Ek. subst. contradiction.
         -- pose proof (Hnl k2 (or_intror H2) r2) as H. destruct (lookup st k2); [exact H|].
-           destruct (memr (root_refs r) k2); discriminate.
+           destruct (memr (xroot_refs r) k2); discriminate.
       * exists st'. split; [exact Hb|]. split.
         -- intros k2 r2 [H2|H2].
            ++ inversion H2; subst. exists r'. split; [exact Hir|]. rewrite (Hout k2 Hnotin), Hl3, ref_eqb_refl. reflexivity.
@@ -294,8 +315,8 @@ Proof.
            assert (Hne : k <> k0) by (intros ->; apply Hk0; left; reflexivity).
            assert (Hk0' : ~ In k0 (map fst rest)) by (intros H; apply Hk0; right; exact H).
            rewrite (Hout k0 Hk0'), Hl3. apply ref_eqb_neq in Hne. rewrite Hne.
-           cbn [entry_refs flat_map snd]. rewrite memr_app. fold (entry_refs rest).
-           destruct (lookup st k0); [reflexivity|]. destruct (memr (root_refs r) k0); cbn [orb]; reflexivity.
+           cbn [xentry_refs flat_map snd]. rewrite memr_app. fold (xentry_refs rest).
+           destruct (lookup st k0); [reflexivity|]. destruct (memr (xroot_refs r) k0); cbn [orb]; reflexivity.
     + (* the entry was absent: ref_to has just created the placeholder, so this case is impossible *)
       rewrite lookup_ref_to, ref_eqb_refl in E1. destruct (lookup st k); discriminate.
 Qed.
@@ -355,6 +376,11 @@ Definition closed (entries : list (ref * root)) : Prop :=
   forall k, In k (entry_refs entries) -> In k (map fst entries).
 Definition all_importable (entries : list (ref * root)) : Prop :=
   forall k r, In (k, r) entries -> root_importable r = true.
+(* the same for an API in the source form *)
+Definition xclosed (entries : list (ref * xroot)) : Prop :=
+  forall k, In k (xentry_refs entries) -> In k (map fst entries).
+Definition xall_importable (entries : list (ref * xroot)) : Prop :=
+  forall k r, In (k, r) entries -> xroot_importable r = true.
 
 Lemma forallb_In {A} (f : A -> bool) l : (forall x, In x l -> f x = true) -> forallb f l = true.
 Proof. intros H. apply forallb_forall. exact H. Qed.
@@ -362,7 +388,7 @@ Proof. intros H. apply forallb_forall. exact H. Qed.
 (* PackageSetFromSourceAPI on a closed, importable API with distinct names: every schema is built and
    linked under its name, nothing else is in the set, and every reference is resolved *)
 Theorem import_api_spec entries :
-  NoDup (map fst entries) -> all_importable entries -> closed entries ->
+  NoDup (map fst entries) -> xall_importable entries -> xclosed entries ->
   exists st', import_api entries = ROk st' /\
     (forall k r, In (k, r) entries -> exists r', import_root r = ROk r' /\ lookup st' k = Some (Linked r')) /\
     (forall k, ~ In k (map fst entries) -> lookup st' k = None) /\
@@ -373,7 +399,7 @@ Proof.
   { intros k _ r'. cbn. discriminate. }
   assert (Hnd' : NoDup (map fst st')) by (apply (nodup_build_schemas entries [] st' (NoDup_nil _) Hb)).
   assert (Hnone : forall k, ~ In k (map fst entries) -> lookup st' k = None).
-  { intros k Hk. rewrite (Hout k Hk). cbn [lookup]. destruct (memr (entry_refs entries) k) eqn:E; [|reflexivity].
+  { intros k Hk. rewrite (Hout k Hk). cbn [lookup]. destruct (memr (xentry_refs entries) k) eqn:E; [|reflexivity].
     apply memr_In in E. apply Hcl in E. contradiction. }
   assert (Hkeys : forall k e, In (k, e) st' -> In k (map fst entries)).
   { intros k e Hke. destruct (in_dec ref_eq_dec k (map fst entries)) as [H|H]; [exact H|].
@@ -393,23 +419,23 @@ Proof.
   destruct (import_root_total r (Himp k r Hkr)) as (r'' & Hir' & Hrr). rewrite Hir in Hir'. inversion Hir'; subst r''.
   rewrite Hrr in Hk2.
   assert (Hk2in : In k2 (map fst entries)).
-  { apply Hcl. unfold entry_refs. apply in_flat_map. exists (k, r). split; [exact Hkr|exact Hk2]. }
+  { apply Hcl. unfold xentry_refs. apply in_flat_map. exists (k, r). split; [exact Hkr|exact Hk2]. }
   apply in_map_iff in Hk2in as ([k0 r2] & Hf & Hk2r). cbn [fst] in Hf. subst k0.
   destruct (Hin k2 r2 Hk2r) as (r2' & _ & Hl2). rewrite Hl2. reflexivity.
 Qed.
 
 (* the order in which buildSchemas meets the schemas (Go map iteration) does not matter *)
 Theorem import_api_order_independent e1 e2 :
-  Permutation e1 e2 -> NoDup (map fst e1) -> all_importable e1 -> closed e1 ->
+  Permutation e1 e2 -> NoDup (map fst e1) -> xall_importable e1 -> xclosed e1 ->
   exists st1 st2, import_api e1 = ROk st1 /\ import_api e2 = ROk st2 /\ forall k, lookup st1 k = lookup st2 k.
 Proof.
   intros Hp Hnd Himp Hcl.
   assert (Hnd2 : NoDup (map fst e2)) by (eapply Permutation_NoDup; [apply Permutation_map; exact Hp|exact Hnd]).
-  assert (Himp2 : all_importable e2) by (intros k r H; apply (Himp k r); eapply Permutation_in; [apply Permutation_sym; exact Hp|exact H]).
-  assert (Hcl2 : closed e2).
-  { intros k Hk. unfold entry_refs in Hk. apply in_flat_map in Hk as (kr & Hkr & Hr).
+  assert (Himp2 : xall_importable e2) by (intros k r H; apply (Himp k r); eapply Permutation_in; [apply Permutation_sym; exact Hp|exact H]).
+  assert (Hcl2 : xclosed e2).
+  { intros k Hk. unfold xentry_refs in Hk. apply in_flat_map in Hk as (kr & Hkr & Hr).
     assert (In k (map fst e1)).
-    { apply Hcl. unfold entry_refs. apply in_flat_map. exists kr. split; [|exact Hr].
+    { apply Hcl. unfold xentry_refs. apply in_flat_map. exists kr. split; [|exact Hr].
       eapply Permutation_in; [apply Permutation_sym; exact Hp|exact Hkr]. }
     eapply Permutation_in; [apply Permutation_map; exact Hp|assumption]. }
   destruct (import_api_spec e1 Hnd Himp Hcl) as (st1 & H1 & Hin1 & Hout1 & _).
@@ -425,29 +451,29 @@ Proof.
 Qed.
 
 (* ---------------------------------------------------------------- the round trip of a schema set *)
-Definition export_entries (S : list (ref * root)) : list (ref * root) :=
+Definition export_entries (S : list (ref * root)) : list (ref * xroot) :=
   map (fun kr => (fst kr, export_root (snd kr))) S.
 
-Lemma erase_kw_refs f : field_refs (erase_kw f) = field_refs f.
-Proof. induction f; cbn [erase_kw field_refs]; try reflexivity; exact IHf. Qed.
-Lemma export_root_refs r : root_refs (export_root r) = root_refs r.
+Lemma form_of_field_refs f : xfield_refs (form_of_field f) = field_refs f.
+Proof. induction f; cbn [form_of_field field_refs xfield_refs xschema_refs]; try reflexivity; exact IHf. Qed.
+Lemma export_root_refs r : xroot_refs (export_root r) = root_refs r.
 Proof.
-  rewrite export_root_erase. unfold root_refs.
-  destruct r as [n d e a ps|n d ps|n d p o i]; cbn [erase_root root_props]; try reflexivity;
+  rewrite export_root_form. unfold root_refs, xroot_refs.
+  destruct r as [n d e a ps|n d ps|n d p o i]; cbn [form_of_root root_props xroot_props]; try reflexivity;
     (induction ps as [|q r IH]; cbn [map flat_map]; [reflexivity|];
-     rewrite IH; destruct q; cbn [erase_prop p_schema]; rewrite erase_kw_refs; reflexivity).
+     rewrite IH; destruct q; cbn [form_of_prop p_schema xp_schema]; rewrite form_of_field_refs; reflexivity).
 Qed.
-Lemma export_root_importable r : root_importable (export_root r) = root_importable r.
+Lemma export_root_importable r : xroot_importable (export_root r) = root_importable r.
 Proof.
-  rewrite export_root_erase. unfold root_importable.
-  destruct r as [n d e a ps|n d ps|n d p o i]; cbn [erase_root root_props]; try reflexivity;
+  rewrite export_root_form. unfold root_importable, xroot_importable.
+  destruct r as [n d e a ps|n d ps|n d p o i]; cbn [form_of_root root_props xroot_props]; try reflexivity;
     (induction ps as [|q r IH]; cbn [map forallb]; [reflexivity|];
-     rewrite IH; destruct q; cbn [erase_prop p_schema]; rewrite field_importable_erase; reflexivity).
+     rewrite IH; destruct q; cbn [form_of_prop p_schema xp_schema]; rewrite field_importable_form; reflexivity).
 Qed.
 
-Lemma export_entries_refs S : entry_refs (export_entries S) = entry_refs S.
+Lemma export_entries_refs S : xentry_refs (export_entries S) = entry_refs S.
 Proof.
-  unfold entry_refs, export_entries. induction S as [|[k r] rest IH]; cbn [map flat_map snd]; [reflexivity|].
+  unfold entry_refs, xentry_refs, export_entries. induction S as [|[k r] rest IH]; cbn [map flat_map snd]; [reflexivity|].
   rewrite export_root_refs, IH. reflexivity.
 Qed.
 
@@ -484,6 +510,8 @@ Lemma import_rhs_ok : rhs_table_ok expected_import ReflectGen.import_rhs = true.
 Proof. vm_compute. reflexivity. Qed.
 Lemma export_rhs_ok : rhs_table_ok (fun _ => expected_export) ReflectGen.export_rhs = true.
 Proof. vm_compute. reflexivity. Qed.
+Lemma export_rhs_complete : export_table_complete ReflectGen.export_rhs = true.
+Proof. vm_compute. reflexivity. Qed.
 (* every member the model treats as copied has an expected source text (so the check above is not vacuous) *)
 Lemma import_rhs_covers :
   forallb (fun e => match e with (site, typ, kvs) =>
@@ -515,3 +543,50 @@ Lemma float_kinds_agree :
       [1%N; 2%N] = ReflectGen.floatKinds /\
   float_kind 0 = None /\ float_kind 3 = None.
 Proof. repeat split; vm_compute; reflexivity. Qed.
+
+(* ---------------------------------------------------------------- the round trip when the API lists the export in another order *)
+Lemma export_entries_hyps S :
+  NoDup (map fst S) -> all_importable S -> closed S ->
+  NoDup (map fst (export_entries S)) /\ xall_importable (export_entries S) /\ xclosed (export_entries S).
+Proof.
+  intros Hnd Himp Hcl.
+  assert (Hkeys : map fst (export_entries S) = map fst S).
+  { unfold export_entries. rewrite map_map. apply map_ext. intros [k r]. reflexivity. }
+  split; [rewrite Hkeys; exact Hnd|]. split.
+  - intros k r H. unfold export_entries in H. apply in_map_iff in H as ([k0 r0] & Hf & H0). cbn [fst snd] in Hf.
+    inversion Hf; subst k r. rewrite export_root_importable. apply (Himp k0 r0 H0).
+  - intros k Hk. rewrite export_entries_refs in Hk. rewrite Hkeys. apply Hcl. exact Hk.
+Qed.
+
+Lemma xhyps_perm e1 e2 :
+  Permutation e1 e2 -> NoDup (map fst e1) -> xall_importable e1 -> xclosed e1 ->
+  NoDup (map fst e2) /\ xall_importable e2 /\ xclosed e2.
+Proof.
+  intros Hp Hnd Himp Hcl. split; [|split].
+  - eapply Permutation_NoDup; [apply Permutation_map; exact Hp|exact Hnd].
+  - intros k r H. apply (Himp k r). eapply Permutation_in; [apply Permutation_sym; exact Hp|exact H].
+  - intros k Hk. unfold xentry_refs in Hk. apply in_flat_map in Hk as (kr & Hkr & Hr).
+    assert (In k (map fst e1)).
+    { apply Hcl. unfold xentry_refs. apply in_flat_map. exists kr. split; [|exact Hr].
+      eapply Permutation_in; [apply Permutation_sym; exact Hp|exact Hkr]. }
+    eapply Permutation_in; [apply Permutation_map; exact Hp|assumption].
+Qed.
+
+Theorem export_import_roundtrip_perm (S : list (ref * root)) (E : list (ref * xroot)) :
+  Permutation E (export_entries S) ->
+  NoDup (map fst S) -> all_importable S -> closed S ->
+  exists S', import_api E = ROk S' /\
+    (forall k x, In (k, x) E -> exists r', lookup S' k = Some (Linked r') /\ export_root r' = x) /\
+    (forall k, ~ In k (map fst E) -> lookup S' k = None) /\
+    refs_resolved S' = true.
+Proof.
+  intros Hp Hnd Himp Hcl.
+  destruct (export_entries_hyps S Hnd Himp Hcl) as (X1 & X2 & X3).
+  destruct (xhyps_perm _ _ (Permutation_sym Hp) X1 X2 X3) as (E1 & E2 & E3).
+  destruct (import_api_spec E E1 E2 E3) as (S' & Hi & Hin & Hout & Hres).
+  exists S'. split; [exact Hi|]. split; [|split; [exact Hout|exact Hres]].
+  intros k x Hkx. destruct (Hin k x Hkx) as (r' & Hir & Hl). exists r'. split; [exact Hl|].
+  assert (Hx : In (k, x) (export_entries S)) by (eapply Permutation_in; eauto).
+  unfold export_entries in Hx. apply in_map_iff in Hx as ([k0 r0] & Hf & H0). cbn [fst snd] in Hf. inversion Hf; subst k x.
+  destruct (import_export_root r0 (Himp k0 r0 H0)) as (r'' & Hir' & He). rewrite Hir in Hir'. inversion Hir'; subst r''. exact He.
+Qed.
